@@ -20,6 +20,85 @@ pub enum Task {
     CHist(crate::props::c06::Case),
     #[cfg(not(feature = "cshim"))]
     CHist(()),
+    /// many short construct-update-finalize rounds in a tight loop (stresses constructors,
+    /// finalisation and any process-global state): lib 0 = Rust crate, 1 = C assembly build, 2 = C intrinsics build
+    Burst { lib: u8, init: BurstInit, len: u16, content: crate::gen::Content, iters: u16 },
+}
+
+#[derive(Clone, Debug, Serialize, Deserialize)]
+pub enum BurstInit {
+    Plain,
+    Keyed([u8; 32]),
+    Derive(crate::gen::CtxSpec),
+}
+
+fn run_burst(lib: u8, init: &BurstInit, len: u16, content: &crate::gen::Content, iters: u16) -> Result<(), String> {
+    let data = content.expand(len as usize);
+    let kf = match init {
+        BurstInit::Plain => b3spec::KeyFlags::hash(),
+        BurstInit::Keyed(k) => b3spec::KeyFlags::keyed(k),
+        BurstInit::Derive(c) => b3spec::KeyFlags::derive_key(&c.bytes()),
+    };
+    let want = b3spec::root(&kf, &data).xof(0, 64);
+    for it in 0..iters {
+        let mut got = [0u8; 64];
+        match lib % 3 {
+            0 => {
+                let mut h = match init {
+                    BurstInit::Plain => blake3::Hasher::new(),
+                    BurstInit::Keyed(k) => blake3::Hasher::new_keyed(k),
+                    BurstInit::Derive(c) => blake3::Hasher::new_derive_key(&c.string()),
+                };
+                h.update(&data);
+                h.finalize_xof().fill(&mut got);
+                let one = match init {
+                    BurstInit::Plain => *blake3::hash(&data).as_bytes(),
+                    BurstInit::Keyed(k) => *blake3::keyed_hash(k, &data).as_bytes(),
+                    BurstInit::Derive(c) => blake3::derive_key(&c.string(), &data),
+                };
+                if one[..] != want[..32] {
+                    return Err(format!("burst iteration {}: Rust one-shot result differs from what it yields alone ({:?})", it, init));
+                }
+            }
+            #[cfg(feature = "cshim")]
+            v => {
+                use crate::cshim::CHasher;
+                use crate::props::c06::InitC;
+                let api = crate::props::c06::api_of(v - 1);
+                let ci = match init {
+                    BurstInit::Plain => InitC::Plain,
+                    BurstInit::Keyed(k) => InitC::Keyed(*k),
+                    BurstInit::Derive(c) => {
+                        if it % 2 == 0 {
+                            InitC::DeriveStr(c.clone())
+                        } else {
+                            InitC::DeriveRaw(c.clone())
+                        }
+                    }
+                };
+                let mut h = Box::new(CHasher::zeroed());
+                unsafe {
+                    ci.init(&api, &mut *h);
+                    (api.update)(&mut *h, data.as_ptr() as *const _, data.len());
+                    (api.finalize)(&*h, got.as_mut_ptr(), 64);
+                }
+            }
+            #[cfg(not(feature = "cshim"))]
+            _ => got.copy_from_slice(&want),
+        }
+        if got[..] != want[..] {
+            return Err(format!(
+                "burst iteration {} (lib {}): {:?} over {} bytes gave {} but alone it yields {}",
+                it,
+                lib % 3,
+                init,
+                len,
+                crate::runner::hex(&got[..16]),
+                crate::runner::hex(&want[..16])
+            ));
+        }
+    }
+    Ok(())
 }
 
 #[derive(Clone, Debug, Serialize, Deserialize)]
@@ -42,6 +121,13 @@ fn run_task(t: &Task) -> Result<(), String> {
         }
         #[cfg(not(feature = "cshim"))]
         Task::CHist(_) => Ok(()),
+        Task::Burst { lib, init, len, content, iters } => {
+            let r = std::panic::catch_unwind(|| run_burst(*lib, init, *len, content, *iters));
+            match r {
+                Ok(x) => x,
+                Err(_) => Err("panic in burst".to_string()),
+            }
+        }
     }
 }
 
@@ -129,13 +215,16 @@ fn task_weight(t: &Task) -> usize {
         Task::CHist(x) => x.budget as usize / 4,
         #[cfg(not(feature = "cshim"))]
         Task::CHist(_) => 0,
+        Task::Burst { len, iters, .. } => *len as usize * *iters as usize,
     }
 }
 
 pub fn classify(c: &Case) -> Classes {
     let heavy = c.programs.iter().filter(|p| p.iter().map(task_weight).sum::<usize>() > 16 * 1024).count();
-    let has_c = c.programs.iter().flatten().any(|t| matches!(t, Task::CHist(_)));
-    let has_rust = c.programs.iter().flatten().any(|t| !matches!(t, Task::CHist(_)));
+    let is_c = |t: &Task| matches!(t, Task::CHist(_)) || matches!(t, Task::Burst { lib, .. } if lib % 3 != 0);
+    let has_c = c.programs.iter().flatten().any(|t| is_c(t));
+    let has_rust = c.programs.iter().flatten().any(|t| !is_c(t));
+    let derive_bursts = c.programs.iter().filter(|p| p.iter().any(|t| matches!(t, Task::Burst { init: BurstInit::Derive(_), .. }))).count();
     Classes::new(c.programs.len() >= 2 && heavy >= 2)
         .tag(c.programs.len() == 2, "threads=2")
         .tag(c.programs.len() > 2 && c.programs.len() <= 8, "threads=3..8")
@@ -143,6 +232,8 @@ pub fn classify(c: &Case) -> Classes {
         .tag(has_c, "C-library-instances")
         .tag(has_rust, "Rust-instances")
         .tag(has_c && has_rust, "both-libraries-in-one-process")
+        .tag(c.programs.iter().flatten().any(|t| matches!(t, Task::Burst { .. })), "burst-task")
+        .tag(derive_bursts >= 2, ">=2-threads-bursting-derive_key")
         .tag(c.programs.iter().any(|p| matches!(p.first(), Some(Task::CHist(_)))), "first-call-is-C(detection-race)")
 }
 
@@ -157,6 +248,13 @@ fn task_strategy() -> BoxedStrategy<Task> {
         x.ops.truncate(12);
         Task::Xof(x)
     });
+    let burst_init = prop_oneof![
+        1 => Just(BurstInit::Plain),
+        2 => gen::key32().prop_map(BurstInit::Keyed),
+        3 => gen::ctx_spec(120, false).prop_map(BurstInit::Derive),
+    ];
+    let burst = (0u8..3, burst_init, prop_oneof![0u16..=200, 0u16..=5000], gen::content(), 50u16..=400)
+        .prop_map(|(lib, init, len, content, iters)| Task::Burst { lib, init, len, content, iters });
     #[cfg(feature = "cshim")]
     {
         let ch = crate::props::c06::strategy(Tier::Quick).prop_map(|mut x| {
@@ -164,11 +262,11 @@ fn task_strategy() -> BoxedStrategy<Task> {
             x.ops.truncate(14);
             Task::CHist(x)
         });
-        prop_oneof![3 => oneshot, 2 => hist_, 2 => xof, 3 => ch].boxed()
+        prop_oneof![3 => oneshot, 2 => hist_, 2 => xof, 3 => ch, 5 => burst].boxed()
     }
     #[cfg(not(feature = "cshim"))]
     {
-        prop_oneof![3 => oneshot, 2 => hist_, 2 => xof].boxed()
+        prop_oneof![3 => oneshot, 2 => hist_, 2 => xof, 4 => burst].boxed()
     }
 }
 
@@ -183,7 +281,7 @@ fn strategy(tier: Tier) -> BoxedStrategy<Case> {
 pub fn subs() -> Vec<Box<dyn DynSub>> {
     vec![Box::new(PropSub::<Case> {
         name: "threads-fresh-process",
-        rule: "proptest: T in {2,4,8,16,32} threads, each with its own program of 1-3 tasks on its own instances (C01 one-shots, C02 histories incl. update_rayon/mmap, C03 XOF-reader histories, C06 histories on C hashers of both library builds with CPU detection left to race), started together by a barrier in a FRESH child process and repeated 12x (quick) / 40x (thorough); oracle: every output of every thread equals the spec model (what the program yields alone) and the process exits cleanly; non-trivial = >=2 threads whose programs both hash > 16 chunks",
+        rule: "proptest: T in {2,4,8,16,32} threads, each with its own program of 1-3 tasks on its own instances (C01 one-shots, C02 histories incl. update_rayon/mmap, C03 XOF-reader histories, C06 histories on C hashers of both library builds with CPU detection left to race, and bursts of 50-400 construct-update-finalize rounds in every mode on either library), started together by a barrier in a FRESH child process and repeated 12x (quick) / 40x (thorough); oracle: every output of every thread equals the spec model (what the program yields alone) and the process exits cleanly; non-trivial = >=2 threads whose programs both hash > 16 chunks",
         cases: (320, 4_000),
         strategy,
         classify,
